@@ -127,7 +127,8 @@ def dtypes():
 # (caches, shared tensors) is only visible on grids with a history.
 
 DERIVE_OPS = ["spacing", "direction", "center", "origin", "align_corners", "resize", "resample", "downsample", "upsample",
-              "crop", "pad", "center_crop", "center_pad", "narrow", "reshape", "clone", "copy", "deepcopy", "pickle", "use", "use"]
+              "crop", "pad", "center_crop", "center_pad", "narrow", "reshape", "clone", "copy", "deepcopy", "pickle", "use", "use",
+              "downsample", "resample", "downsample"]  # (repeated entries = weights)
 N_WARM = 16  # number of warm-up calls known to vlib.case.warm_grid
 
 
